@@ -21,3 +21,6 @@ OBLIGATIONS = [
   O('C11.b-noclip-d', 'c11_args.cpp', 'harness_noclip_d', replace=MATH, unwind=19, timeout=300, bound='one concrete triangle, all fill rules, non-empty solution containers on entry, paths and tree overloads', desc='ClipperD::Execute(NoClip) returns true and empties both solutions'),
   O('C11.b-noclip', 'c11_args.cpp', 'harness_noclip', unwind=12, bound='one concrete triangle, all fill rules', desc='Execute(NoClip) returns true and clears both solutions'),
 ]
+ARGS17 = {'Clipper2Lib::ClipperBase::AddPaths(': 'stub_addpaths', 'Clipper2Lib::ClipperBase::ExecuteInternal(': 'stub_execint', 'Clipper2Lib::Clipper64::BuildPaths64(': 'stub_buildpaths64', 'Clipper2Lib::ClipperBase::CleanUp(': 'stub_cleanup',
+          'Clipper2Lib::Clipper64::BuildTree64(': 'stub_buildtree64', 'Clipper2Lib::ClipperD::BuildTreeD(': 'stub_buildtreeD', 'Clipper2Lib::ClipperD::BuildPathsD(': 'stub_buildpathsD', 'pow': 'stub_pow_w', 'ilogb': 'stub_ilogb_w'}
+OBLIGATIONS += [O('C11.d-export-args-%s' % nm, 'c17_export.cpp', 'harness_booleanop_args', defs=['BFN=%d' % k], replace=ARGS17, unwind=19, timeout=600, bound='all cliptype/fillrule bytes, precisions -12..12, both flags', desc='%s reports out-of-range precision / clip type / fill rule by its documented code before the engine is touched and returns 0 for every valid combination (shared with C17.c)' % nm) for k, nm in ((1, 'BooleanOp_PolyTree64'), (2, 'BooleanOpD'), (3, 'BooleanOp_PolyTreeD'))]
